@@ -20,6 +20,8 @@ SLD = PC + "set_local_description"
 SRD = PC + "set_remote_description::{closure#0}"
 CO = PC + "create_offer::{closure#0}"
 CA = PC + "create_answer::{closure#0}"
+# create_offer / create_answer do their work in build_description: the mids it assigns (ensure_mid) are effects of the API call
+BD = "peer_connection::PeerConnectionInner::build_description::{closure#0}"
 
 JSEP = {
     SLD: {"Offer": ({"Stable"}, {"HaveLocalOffer"}), "Answer": ({"HaveRemoteOffer"}, {"Stable"}),
@@ -216,7 +218,7 @@ def r09_3(ctx):
     return r
 
 
-SETTERS = ("RtpTransceiver::set_mid", "RtpTransceiver::update_payload_map", "RtpTransceiver::update_extmap",
+SETTERS = ("PeerConnectionInner::ensure_mid", "RtpTransceiver::set_mid", "RtpTransceiver::update_payload_map", "RtpTransceiver::update_extmap",
            "RtpTransceiver::set_direction", "RtpTransceiver::set_remote_direction", "RtpTransceiver::set_current_direction",
            "PeerConnection::handle_reinvite", "PeerConnection::cleanup_orphaned_extra_transports")
 
@@ -249,7 +251,8 @@ def _effects(body):
             if a.get("k") not in ("mv", "cp") or not isinstance(pl, dict) or "p" in pl:
                 continue
             ty = body.locals[pl["l"]]["ty"]
-            if not ty.startswith("&mut "):
+            # the slot itself (`&mut Option<SessionDescription>`), not an iterator over something read from it
+            if not (ty.startswith("&mut std::option::Option<") and "SessionDescription" in ty):
                 continue
             hit = None
             for y in mir.walk(body.term_operand(a)):
@@ -326,7 +329,7 @@ def _key_fn(term, meaning):
 
 def r09_2(ctx):
     r = RuleResult("R09.2", "K2", "no effect is followed by an error return (rejected calls change nothing)")
-    for fn in (SLD, SRD, CO, CA):
+    for fn in (SLD, SRD, CO, CA, BD):
         body = ctx.body(fn)
         r.scope.append(fn)
         errs = []
